@@ -129,6 +129,7 @@ class Ref(object):
         self.run = run
         self.times = run.times
         self.tanks = dict((t['name'], t) for t in case['tanks'])
+        self.junctions = set(j['name'] for j in case['junctions'])
         self.links = {}
         for k, kind in (('pipes', 'pipe'), ('pumps', 'pump'), ('valves', 'valve')):
             for l in case[k]:
@@ -158,10 +159,17 @@ class Ref(object):
             return pts[0][1]
         return None
 
+    def supply_head(self, node, k):
+        """reported head; a junction cut off from every source is reported with head 0 and pressure 0 and cannot supply
+        water to a neighbour: it ranks below every real head (all real heads of the generated networks are > 20 m)"""
+        if node in self.junctions and self.head[node][k] == 0.0 and self.pres[node][k] == 0.0:
+            return -float('inf')
+        return self.head[node][k]
+
     def held_closed(self, lname, k):
         """reason why link `lname`, reported closed in row k, may be held closed although commanded open"""
         kind, l = self.links[lname]
-        ha, hb = self.head[l['a']][k], self.head[l['b']][k]
+        ha, hb = self.supply_head(l['a'], k), self.supply_head(l['b'], k)
         if kind == 'pipe' and l['cv'] and ha - hb <= G.HTOL + 1e-6:
             return 'cv'
         if kind == 'pump':
@@ -174,7 +182,7 @@ class Ref(object):
             if t is None:
                 continue
             lev = self.pres[end][k]
-            ht, ho = self.head[end][k], self.head[other][k]
+            ht, ho = self.head[end][k], self.supply_head(other, k)
             at_min = lev <= t['min'] + G.HTOL + 1e-9
             at_max = lev >= t['max'] - G.HTOL - 1e-9
             if directed:
